@@ -39,6 +39,9 @@ def build(scratch):
     methods = [ex.fn(VM, m) for m in METHODS]
     # cut_sequence has a cfg(feature = "dynamic") body only: the baseline configuration compiles it to nothing
     methods.append("#[inline(always)]\n    fn cut_sequence(&mut self) {}")
+    methods.append(ex.fn(VM, "call_with_args"))
+    tco = ex.match_arm_block(VM, r"op_code: OpCode::TCOJMP,\s*payload_size,\s*\.\.\s*\}")
+    methods.append("/// D6: body of the `OpCode::TCOJMP` arm of VmCore::vm, wrapped into a method (the arm binds `payload_size`)\n    fn arm_tcojmp(&mut self, payload_size: u24) -> Result<()> " + "{\n        " + tco + "\n        Ok(())\n    }")
     arm = ex.match_arm_block(VM, r"op_code: OpCode::SUBIMMEDIATE,\s*\.\.\s*\}")
     methods.append("/// D6: body of the `OpCode::SUBIMMEDIATE` arm of VmCore::vm, wrapped into a method\n    fn arm_subimmediate(&mut self) -> Result<()> " + "{\n        " + arm + "\n        Ok(())\n    }")
     ins = ["#[derive(Copy, Clone, Debug, PartialEq, Eq, Hash)] // real: + Serialize, Deserialize\n" + ex.item(INSTR, "struct", "DenseInstruction"),
@@ -93,6 +96,14 @@ OBS = {
                                              contract="same with two arguments passed: the rest list holds exactly the one surplus argument"),
     "tco_jump_contract": dict(props=["C09"], kind="bounded", bound=BS, functions=["VmCore::tco_jump_handler"],
                               contract="self tail call: frame count unchanged, stack' == stack[..frame.sp] ++ arguments, ip' == 0, sp' == frame.sp; arity mismatch => error"),
+    "tcojmp_arm_contract": dict(props=["C09", "C01"], kind="bounded", bound=BS, functions=["VmCore::vm (OpCode::TCOJMP arm)"],
+                                contract="the interpreter loop's self tail call: stack' == stack[..sp] ++ arguments (fixed arity) or ++ [a1, list(rest)] (variadic), nothing below sp touched, ip' == 0, frame count unchanged; arity mismatch => error"),
+    "call_with_args_leaves_no_residue": dict(props=["C07", "C01"], kind="bounded", bound="operand stack of 5 values, <= 2 arguments, callee leaves <= 2 temporaries", functions=["VmCore::call_with_args", "VmCore::adjust_stack_for_multi_arity"],
+                                             contract="a host-initiated call: the callee sees exactly the given arguments above the old stack; whether it returns a value or an error (including an arity error before it runs) the operand stack is cut back to its old length and no frame is left behind"),
+    "call_with_args_ok_leaves_no_residue": dict(props=["C07", "C01"], kind="bounded", bound="2 arguments, callee leaves 1 temporary, returns a value", functions=["VmCore::call_with_args"],
+                                                contract="same for a call that returns a value"),
+    "call_with_args_arity_error_leaves_no_residue": dict(props=["C07", "C01"], kind="bounded", bound="3 (arity, argument count) mismatches", functions=["VmCore::call_with_args"],
+                                                         contract="a host call rejected for its argument count leaves the operand stack and the frame stack as they were"),
     "check_stack_overflow_contract": dict(props=["C09", "C07"], kind="proof", functions=["VmCore::check_stack_overflow"],
                                           contract="for EVERY frame-stack depth: Err(Generic) iff depth >= STACK_LIMIT (a depth limit that can be stepped over is a crash instead of an error value)"),
     "function_call_closure_contract": dict(props=["C09", "C01"], kind="bounded", bound=BS, functions=["VmCore::handle_function_call_closure", "StackFrame::new", "VmCore::check_stack_overflow"],
